@@ -191,7 +191,11 @@ func genScenario(ch chooser) Scenario {
 		if k := ch.Pick("overlapAligned", 2, 1, 1); k > 0 {
 			at = k * L
 		}
-		sc.Overlap = &overlapSpec{At: at, Rot: ch.Pick("overlapRot", rotW...)}
+		rot := ch.Pick("overlapRot", rotW...)
+		if ch.Pick("overlapSameList", 3, 1) == 1 {
+			rot = 0 // keyper set 2 has exactly the same ordered keyper list as set 1
+		}
+		sc.Overlap = &overlapSpec{At: at, Rot: rot}
 	}
 	// Template "one honest keyper misses its accusation": a Byzantine dealer
 	// that otherwise stays qualified gives honest keyper A a bad eval and A
@@ -260,7 +264,7 @@ func genScenario(ch chooser) Scenario {
 	return sc
 }
 
-const c07Rule = "case = (n in 3..5, t in 1..n, phase length L in {6,8,10} blocks, keyper-set order, check-in fork on/off, Byzantine subset of size <= n-t each with a strategy commitment{correct,none,wrong degree,duplicate,points at infinity} x eval per receiver{correct,wrong,none} x accusation{none,false against a drawn set} x apology{correct,wrong,none} x repeated-address copies {none, before every accusation/apology/eval message a copy whose address list repeats its first entry} x apology with an extra entry {none, behind, in front of the genuine ones} addressed to a keyper that never accused the sender and carrying an out-of-range evaluation x timing per message class{offset inside the phase, first block after the phase; accusations and apologies also 1-3 blocks before their phase}, and a block schedule for 3L+ blocks: order of the honest keypers' sync+send steps per block, per-step send budget {unlimited,1,2}, extra steps, position of the Byzantine transactions inside the block; 1/4 of the runs are unfair: an honest keyper takes no step for 1..L blocks; in 1/6 of the runs a second keyper set (the same keypers, rotated order, index 2) becomes due on the main chain at a drawn block of the dealing, accusing or apologizing phase of the first DKG, the keypers vote for it and a second eon's DKG overlaps the first (in a third of them exactly one or two phase lengths later); every oracle is then evaluated for both eons, Byzantine keypers act in the first eon only and are silent members of the second); honest keypers run smobserver.SyncAppWithDB + KeyperCore.handleOnChainChanges + fx.SendShutterMessages on their own pgfake database against the real ShutterApp behind faketm. Non-trivial = the chain carries >=1 accusation made in the accusing phase, or a Byzantine DKG message accepted outside its phase or answered 'seen' (duplicate), or a wrong-degree commitment. Distinct = hash of scenario + schedule."
+const c07Rule = "case = (n in 3..5, t in 1..n, phase length L in {6,8,10} blocks, keyper-set order, check-in fork on/off, Byzantine subset of size <= n-t each with a strategy commitment{correct,none,wrong degree,duplicate,points at infinity} x eval per receiver{correct,wrong,none} x accusation{none,false against a drawn set} x apology{correct,wrong,none} x repeated-address copies {none, before every accusation/apology/eval message a copy whose address list repeats its first entry} x apology with an extra entry {none, behind, in front of the genuine ones} addressed to a keyper that never accused the sender and carrying an out-of-range evaluation x timing per message class{offset inside the phase, first block after the phase; accusations and apologies also 1-3 blocks before their phase}, and a block schedule for 3L+ blocks: order of the honest keypers' sync+send steps per block, per-step send budget {unlimited,1,2}, extra steps, position of the Byzantine transactions inside the block; 1/4 of the runs are unfair: an honest keyper takes no step for 1..L blocks; in 1/6 of the runs a second keyper set (the same keypers in rotated order - in a quarter of these runs in exactly the same order -, index 2) becomes due on the main chain at a drawn block of the dealing, accusing or apologizing phase of the first DKG, the keypers vote for it and a second eon's DKG overlaps the first (in a third of them exactly one or two phase lengths later); every oracle is then evaluated for both eons, Byzantine keypers act in the first eon only and are silent members of the second); honest keypers run smobserver.SyncAppWithDB + KeyperCore.handleOnChainChanges + fx.SendShutterMessages on their own pgfake database against the real ShutterApp behind faketm. Non-trivial = the chain carries >=1 accusation made in the accusing phase, or a Byzantine DKG message accepted outside its phase or answered 'seen' (duplicate), or a wrong-degree commitment. Distinct = hash of scenario + schedule."
 
 func c07Labels(sc Scenario, st agreeStats, ref *refRecord, r *Run) (labels []string, nontrivial bool) {
 	labels = append(labels, fmt.Sprintf("n=%d", sc.N), fmt.Sprintf("t=%d", sc.T), fmt.Sprintf("L=%d", sc.L), fmt.Sprintf("byz=%d", len(sc.Byz)))
@@ -441,6 +445,9 @@ func runC07CaseX(rec *Recorder, sc Scenario, ch chooser, fail failFn, plain bool
 			labels = append(labels, "overlapping-eons:second-eon-did-not-start")
 		} else {
 			labels = append(labels, "overlapping-eons:second-eon-starts-in-"+[]string{"dealing", "accusing", "apologizing", "after-finalize"}[min(3, int((r.h1-r.h0)/sc.L))])
+			if sc.Overlap.Rot%sc.N == 0 {
+				labels = append(labels, "overlapping-eons:identical-ordered-keyper-list")
+			}
 			if (r.h1-r.h0)%sc.L == 0 {
 				labels = append(labels, "overlapping-eons:start-heights-a-multiple-of-the-phase-length-apart")
 			}
@@ -634,7 +641,7 @@ func TestC07_OverlappingEons(t *testing.T) {
 					continue
 				}
 				sc := Scenario{N: n, T: 2, L: 8, Order: []int{2, 0, 1, 3}[:n], Byz: map[int]ByzStrategy{}, Fair: true, ForkEnabled: idx%2 == 0,
-					PlainBudget: budget, Overlap: &overlapSpec{At: at, Rot: 1 + idx%(n-1)}}
+					PlainBudget: budget, Overlap: &overlapSpec{At: at, Rot: []int{1 + idx%(n-1), 0}[idx/2%2]}}
 				if n == 3 {
 					sc.Order = []int{2, 0, 1}
 				}
